@@ -419,13 +419,50 @@ def packages_are_not_identified_by_name(F, res, rule="T10", _ret=False):
                 dd = FL.depends(F, g, dg, t["op"])
                 deps |= {(g.path == f.path, a) for a in dd["args"]}
     decided_by = sorted(a for own, a in deps if own)
+    # every answer that is an existing entry stands behind a decision that depends on the manifest: two early returns, one found
+    # by manifest and one found by name, are still a look-up by name
+    by_name_only = []
+    ans_blocks = []
+    if o.get("k") == "multi":
+        for dd in o["defs"]:
+            if not (dd[2] == "call" and FL.short(callee(dd[3]) or "").endswith("Arena::alloc")):
+                ans_blocks.append(dd[0])
+    for bb in ans_blocks:
+        args_ = set()
+        for g in FL.gates(F, f, [bb], d):
+            t_ = f.term(g["bb"])
+            if t_.get("k") == "switch":
+                args_ |= set(FL.depends(F, f, d, t_["op"])["args"])
+        # what the closures handed to the search compare is part of the decision
+        for u in units[1:]:
+            du = FL.Defs(u)
+            for b2 in sorted(u.reachable()):
+                t2 = u.term(b2)
+                if t2["k"] == "switch" or True:
+                    pass
+        if 3 not in args_:
+            # the closure of a `find` captures what it compares with: look at the captured parameters
+            cap = set()
+            for b2, i2, s2 in f.stmts():
+                rv2 = s2.get("rv") or {}
+                if rv2.get("k") == "agg" and rv2.get("agg") == "closure":
+                    for o2 in rv2.get("ops", []) or []:
+                        cap |= set(FL.depends(F, f, d, o2)["args"])
+            gate_calls = set()
+            for g in FL.gates(F, f, [bb], d):
+                t_ = f.term(g["bb"])
+                if t_.get("k") == "switch":
+                    gate_calls |= set(FL.depends(F, f, d, t_["op"])["calls"])
+            per_answer = args_ | (cap if len([1 for b2, i2, s2 in f.stmts() if (s2.get("rv") or {}).get("agg") == "closure"]) == 1 else set())
+            if 3 not in per_answer:
+                by_name_only.append("the answer made in block %s is decided by parameters %s" % (bb, sorted(per_answer)))
     if _ret:
         return f, fresh, other, decided_by
-    ok = bool(fresh) and (not other or 3 in decided_by)
+    ok = bool(fresh) and (not other or (3 in decided_by and not by_name_only))
     res.ob(rule, "add_package/fresh-entry", "PackageGraph::add_package answers with a newly allocated entry on every path (or finds an existing one by its manifest, "
            "never by its name alone)", ok, where=f.loc(),
            how="%d answer(s), all from Arena::alloc" % len(fresh) if ok and not other else
-           "answers that are not a fresh allocation: %d; parameters that decide: %s (2 = display_name, 3 = gleam_toml)" % (len(other), decided_by))
+           "answers that are not a fresh allocation: %d; parameters that decide: %s (2 = display_name, 3 = gleam_toml); %s" % (len(other), decided_by, "; ".join(by_name_only)))
 
 
 def name_clashes_and_duplicate_entries_are_settled_one_way(F, res, rule="T11"):
